@@ -4,8 +4,9 @@
    panic, for any argument value, for every function of the table regenerated
    from the source, except for the arguments on the explicit allow lists;
    (2) the integer arithmetic emitted by emit.rs cannot trap under the guards
-   regenerated from emit.rs, except i64::MIN / -1; (3) the recorded exceptions
-   have witnesses (stated so that they stay true once the source is repaired).
+   regenerated from emit.rs; (3) the conversion / instruction shapes of the
+   defects repaired so far (DESIGN findings 5, 7, 8) are refuted as literals,
+   statements that do not depend on the source.
    Memory safety of unsafe code, stack depth and allocation bounds are
    observed in child processes by the harness, not proved. *)
 From Coq Require Import List ZArith String Bool Lia.
@@ -15,7 +16,7 @@ Local Open Scope Z_scope.
 
 (* ------------------------------------------------------------------ host functions *)
 
-(* The decidable condition on the generated table: every integer argument of
+(* host_table_safe: the decidable condition on the generated table: every integer argument of
    every #[wasm_export] function of wasm/mod.rs and of every #[module_export]
    function of the math / hash / string / console modules is accepted by the
    interval analysis, or is produced by the code generator (emitter_controlled,
@@ -26,19 +27,29 @@ Theorem host_table_safe : table_safe Debug = true /\ table_safe Release = true.
 Proof. split; vm_compute; reflexivity. Qed.
 Print Assumptions host_table_safe.
 
+(* no run-time integer argument needs the known-findings allow list (it is
+   empty since the repairs fd32d03a / e7c1d7b6): the only arguments the analysis
+   rejects are the emitter-controlled ones *)
+Theorem no_runtime_exceptions :
+  unsafe_runtime_args Debug emitter_controlled (host_fns ++ module_fns) = [] /\
+  unsafe_runtime_args Release emitter_controlled (host_fns ++ module_fns) = [] /\
+  table_safe_with Debug emitter_controlled [] (host_fns ++ module_fns) = true /\
+  table_safe_with Release emitter_controlled [] (host_fns ++ module_fns) = true.
+Proof. repeat split; vm_compute; reflexivity. Qed.
+Print Assumptions no_runtime_exceptions.
+
 (* host_no_panic: for every function of the generated tables, every integer
-   argument outside the allow lists, every value of the argument's type, every
-   i64 value of the other arguments, every collection length and both
+   argument that is not emitter-controlled, every value of the argument's type,
+   every i64 value of the other arguments, every collection length and both
    profiles, the conversion code does not panic. *)
 Theorem host_no_panic : forall prof f a env len v,
   In f (host_fns ++ module_fns) -> In a (f_args f) ->
   is_emitter_controlled emitter_controlled (f_name f) (a_name a) = false ->
-  is_known_unsafe known_unsafe (f_name f) (a_name a) = false ->
   fits (a_ty a) v = true -> (forall n, fits I64 (env n) = true) ->
   run_arg prof env len a v <> Panic.
 Proof.
-  intros prof. apply host_no_panic_of_table.
-  destruct prof; [exact (proj1 host_table_safe)|exact (proj2 host_table_safe)].
+  intros prof. apply host_no_panic_without_exceptions.
+  destruct prof; [exact (proj1 (proj2 (proj2 no_runtime_exceptions)))|exact (proj2 (proj2 (proj2 no_runtime_exceptions)))].
 Qed.
 Print Assumptions host_no_panic.
 
@@ -49,34 +60,25 @@ Theorem accepted_argument_never_panics : forall prof a env len v,
 Proof. exact arg_no_panic. Qed.
 Print Assumptions accepted_argument_never_panics.
 
-(* host_no_panic without the allow list is refuted (DESIGN findings 5 and 8):
-   every recorded exception has a witness value in range on which the generated
-   conversion table panics -- or its argument is accepted by now (the source was
-   repaired and the entry is stale); the two cases are told apart exactly. *)
-Theorem host_no_panic_refuted :
-  forallb (witness_exact Debug) witnesses = true /\ known_have_witnesses = true /\
-  forall f a v o, In (f, a, v, o) witnesses ->
-    (exists arg, find_arg all_fns f a = Some arg /\ fits (a_ty arg) v = true /\ fits I64 o = true /\
-                 run_arg Debug (fun _ => o) 0 arg v = Panic)
-    \/ (exists arg, find_arg all_fns f a = Some arg /\ arg_safe Debug arg = true).
-Proof.
-  assert (E : forallb (witness_exact Debug) witnesses = true) by (vm_compute; reflexivity).
-  split; [exact E|]. split; [vm_compute; reflexivity|].
-  intros f a v o Hin. rewrite forallb_forall in E. specialize (E _ Hin).
-  unfold witness_exact in E. destruct (find_arg all_fns f a) as [arg|] eqn:Ef; [|discriminate].
-  destruct (witness_panics Debug (f, a, v, o)) eqn:P.
-  - left. apply witness_panics_spec in P. destruct P as (arg' & E' & R). rewrite Ef in E'. inversion E'; subst arg'.
-    exists arg. split; [reflexivity|exact R].
-  - right. exists arg. split; [reflexivity|]. cbn in E. destruct (arg_safe Debug arg); [reflexivity|discriminate].
-Qed.
-Print Assumptions host_no_panic_refuted.
+(* the conversions of the repaired defects, as they were (DESIGN findings 5 and 8): a
+   run-time N = 2^31 in `N of`, math.abs(i64::MIN), hash.md5(i64::MAX, 1),
+   console.log(1, i64::MAX) panic in the model (overflow checks on), and the
+   analysis rejects each of these shapes.  Independent of the source. *)
+Theorem unguarded_conversions_refuted :
+  run_arg Debug no_env 0 before_fix_required 2147483648 = Panic /\
+  run_arg Debug no_env 0 before_fix_abs i64_min = Panic /\
+  run_arg Debug (fun _ => 1) 0 before_fix_hash_offset i64_max = Panic /\
+  run_arg Debug (fun _ => i64_max) 0 before_fix_console_offset 1 = Panic /\
+  forallb (fun a => negb (arg_safe Debug a)) [before_fix_required; before_fix_abs; before_fix_hash_offset; before_fix_console_offset] = true.
+Proof. vm_compute. repeat split. Qed.
+Print Assumptions unguarded_conversions_refuted.
 
-(* with overflow checks off (release profile) only pat_range_match needs the allow list *)
-Theorem release_profile_exceptions :
-  forallb (fun fa => String.eqb (fst fa) "pat_range_match")
-          (unsafe_runtime_args Release emitter_controlled (host_fns ++ module_fns)) = true.
-Proof. vm_compute. reflexivity. Qed.
-Print Assumptions release_profile_exceptions.
+(* the witnesses of the recorded exceptions evaluated on the CURRENT table: each
+   panics iff the analysis rejects its argument (all are accepted by now) *)
+Theorem witnesses_exact :
+  forallb (witness_exact Debug) witnesses = true /\ known_have_witnesses = true.
+Proof. split; vm_compute; reflexivity. Qed.
+Print Assumptions witnesses_exact.
 
 (* the functional models: `$a at N`, `$a in (lo..hi)` / `#a in (lo..hi)`,
    `@a[N]` / `!a[N]`, uintN(N) .. float64be(N), math.*(offset, length) never
@@ -109,44 +111,63 @@ Proof.
 Qed.
 Print Assumptions data_readers_total.
 
-(* the recorded exceptions, under the exact guard that excludes the known class *)
-Theorem guarded_functions_total : forall prof nmatching r x f dl off size,
-  ity_min I32 <= r <= ity_max I32 ->
-  i64_min + 1 <= x <= i64_max ->
-  In f hash_fns -> i64_min <= off <= half -> i64_min <= size <= half - 1 ->
+(* the functions that used to need the allow list: `N of` (pat_range_match),
+   math.abs, hash.*(offset, size), console.log(offset, length) never panic, for
+   any i64 arguments, both profiles *)
+Theorem repaired_functions_total : forall prof nmatching r x f g dl off size,
+  i64_min <= r <= i64_max -> i64_min <= x <= i64_max ->
+  In f hash_fns -> In g console_fns -> i64_min <= off <= i64_max -> i64_min <= size <= i64_max ->
   pat_range_match host_fns prof nmatching r <> RPanic /\
   math_abs module_fns prof x <> RPanic /\
-  hash_range module_fns prof f dl off size <> RPanic.
+  hash_range module_fns prof f dl off size <> RPanic /\
+  console_range module_fns prof g dl off size <> RPanic.
 Proof.
-  intros prof nmatching r x f dl off size Hr Hx Hf Ho Hs. repeat split.
-  - apply pat_range_match_guarded; [destruct prof; vm_compute; reflexivity|assumption].
-  - apply math_abs_guarded; [destruct prof; vm_compute; reflexivity|assumption].
-  - apply hash_range_guarded; try assumption. destruct prof; vm_compute; reflexivity.
+  intros prof nmatching r x f g dl off size Hr Hx Hf Hg Ho Hs. repeat split.
+  - apply pat_range_match_total; [destruct prof; vm_compute; reflexivity|assumption].
+  - apply math_abs_total; [destruct prof; vm_compute; reflexivity|assumption].
+  - apply hash_range_total; try assumption. destruct prof; vm_compute; reflexivity.
+  - apply console_range_total; try assumption. destruct prof; vm_compute; reflexivity.
 Qed.
-Print Assumptions guarded_functions_total.
+Print Assumptions repaired_functions_total.
 
 (* ------------------------------------------------------------------ WASM traps *)
 
 (* emit_no_trap: integer arithmetic over run-time values (+ - * \ % << >> unary
    minus, bitwise operators; any nesting, any values, undefined operands
-   included) never traps under the guards regenerated from emit.rs, provided
-   no division is evaluated on (i64::MIN, -1) -- or emit.rs guards that case *)
-Theorem emit_no_trap : forall env e,
-  (g_div_min_neg1 div_guards = true \/ min_div_free div_guards env e = true) ->
-  aeval div_guards env e <> WTrap.
+   included) never traps under the guards regenerated from emit.rs (zero
+   divisors -> undefined; divisor -1 -> `0 - lhs`; shift counts compared with 64) *)
+Theorem emit_no_trap : forall env e, aeval div_guards env e <> WTrap.
 Proof.
-  intros env e H. apply emit_no_trap_guarded; [vm_compute; reflexivity|vm_compute; reflexivity|exact H].
+  intros env e. apply emit_no_trap_guarded; [vm_compute; reflexivity|vm_compute; reflexivity|left; vm_compute; reflexivity].
 Qed.
 Print Assumptions emit_no_trap.
 
-(* without that proviso it is refuted (DESIGN finding 7): either the guard has
-   been added by now, or `(-9223372036854775807-1) \ (filesize - 4)` on a 3-byte
-   file traps; likewise the percentage quantifier
-   `for (filesize * 1000)% i in (0..0x3fffffffffffffff)` (n = 2^62, q = 3000) *)
+(* for any guards: zero guards present and no division evaluated on (i64::MIN, -1) suffice *)
+Theorem emit_no_trap_if_min_div_free : forall g env e,
+  g_div_zero g = true -> g_rem_zero g = true ->
+  (g_div_min_neg1 g = true \/ min_div_free g env e = true) ->
+  aeval g env e <> WTrap.
+Proof. exact emit_no_trap_guarded. Qed.
+Print Assumptions emit_no_trap_if_min_div_free.
+
+(* the percentage quantifier's conversion, as generated from emit_for, never traps *)
+Theorem percentage_no_trap : forall n q, emit_pct pct_trunc_trapping n q <> WTrap.
+Proof. intros n q. assert (E : pct_trunc_trapping = false) by (vm_compute; reflexivity). rewrite E. apply emit_pct_sat_no_trap. Qed.
+Print Assumptions percentage_no_trap.
+
+(* refuted for emit.rs as it was (DESIGN finding 7): with the zero guard only,
+   `(-9223372036854775807-1) \ (filesize - 4)` on a 3-byte file traps, and the
+   trapping conversion of `for (filesize * 1000)% i in (0..0x3fffffffffffffff)`
+   (n = 2^62, q = 3000) traps.  Independent of the source; the second part says
+   what holds for the current source: the guard / saturating conversion is there
+   or the witness still traps. *)
 Theorem emit_no_trap_refuted :
+  aeval guards_before_fix div_witness_env div_witness = WTrap /\
+  pct_max_count 4611686018427387904 3000 = WTrap /\
   (g_div_min_neg1 div_guards = true \/ aeval div_guards div_witness_env div_witness = WTrap) /\
   (pct_trunc_trapping = false \/ pct_max_count 4611686018427387904 3000 = WTrap).
 Proof.
+  split; [vm_compute; reflexivity|]. split; [vm_compute; reflexivity|].
   assert (D : div_refuted_b = true) by (vm_compute; reflexivity).
   assert (P : pct_refuted_b = true) by (vm_compute; reflexivity).
   unfold div_refuted_b in D. unfold pct_refuted_b in P.
